@@ -591,4 +591,41 @@ theorem orfAt_spec (t : CodonTable) (stopCode metCode : Nat) (metStart : Bool) (
   | [_] => simp [chunk3]
   | [_, _] => simp [chunk3]
 
+/-! ### derived tables -/
+
+theorem withMappings_spec (nuc prot : List Nat) (t t' : CodonTable) (d : List (List Nat × Nat))
+    (h : t.withMappings nuc prot d = .ok t') :
+    t'.starts = t.starts ∧ t'.codons.length = t.codons.length ∧
+    (∀ m : Nat, (∀ e ∈ d, ∀ m' a, entryNum nuc prot e = .ok (m', a) → m' ≠ m) → t'.codons[m]? = t.codons[m]?) ∧
+    (d.Pairwise (fun e1 e2 => ∀ m1 a1 m2 a2, entryNum nuc prot e1 = .ok (m1, a1) →
+        entryNum nuc prot e2 = .ok (m2, a2) → m1 ≠ m2) →
+      ∀ e ∈ d, ∀ m a, entryNum nuc prot e = .ok (m, a) → m < t.codons.length → t'.codons[m]? = some a) := by
+  unfold CodonTable.withMappings at h
+  cases htbl : tableFill nuc prot (t.codons.map some) d with
+  | error e => simp [htbl] at h
+  | ok tbl =>
+    simp only [htbl] at h
+    cases hall : allSome tbl with
+    | none => simp [hall] at h
+    | some cs =>
+      simp only [hall, Except.ok.injEq] at h
+      subst h
+      obtain ⟨hlen, hget⟩ := allSome_get tbl cs hall
+      have htl := tableFill_length nuc prot _ tbl d htbl
+      have hl : cs.length = t.codons.length := by rw [hlen, htl]; simp
+      refine ⟨rfl, hl, ?_, ?_⟩
+      · intro m hd
+        cases hm : t.codons[m]? with
+        | none =>
+          have : t.codons.length ≤ m := by
+            rcases Nat.lt_or_ge m t.codons.length with h' | h'
+            · simp [List.getElem?_eq_getElem h'] at hm
+            · exact h'
+          exact List.getElem?_eq_none (by show cs.length ≤ m; omega)
+        | some a =>
+          have h0 : (t.codons.map some)[m]? = some (some a) := by simp [hm]
+          exact hget m a (tableFill_keeps nuc prot _ tbl d htbl m (some a) h0 hd)
+      · intro hpw e he m a hea hm
+        exact hget m a (tableFill_get nuc prot _ tbl d htbl hpw e he m a hea (by simpa using hm))
+
 end BiotiteModel.C03
